@@ -17,6 +17,22 @@ pub struct JoinAll<F: Future> {
 
 impl<F: Future> Unpin for JoinAll<F> {}
 
+impl<F: Future> Drop for JoinAll<F> {
+    fn drop(&mut self) {
+        // Output `i` has been written exactly when future `i` has left the queue: `poll` writes the
+        // output before it releases the future. Take the buffer first, so that nothing can be released
+        // twice should one of the destructors below panic.
+        // (Once the result was returned, `output` is empty and there is nothing left to release.)
+        let mut output = core::mem::replace(&mut self.output, Vec::new().into_boxed_slice());
+        for (i, out) in output.iter_mut().enumerate() {
+            if self.queue.tasks.get(i).is_none() {
+                // SAFETY: see above, this entry is initialised and is dropped only here
+                unsafe { out.assume_init_drop() };
+            }
+        }
+    }
+}
+
 /// Creates a future which represents a collection of the outputs of the futures
 /// given.
 ///
@@ -90,9 +106,12 @@ impl<F: Future> Future for JoinAll<F> {
 
     fn poll(mut self: Pin<&mut Self>, cx: &mut Context<'_>) -> Poll<Self::Output> {
         loop {
-            match self.as_mut().queue.poll_inner(cx) {
+            match self.as_mut().queue.poll_inner_no_remove(cx, F::poll) {
                 Poll::Ready(Some((i, x))) => {
+                    // write the output before the future is released: a vacant slot always means
+                    // "output written", also if the destructor of the future panics
                     self.output[i].write(x);
+                    self.queue.tasks.remove(i);
                 }
                 Poll::Ready(None) => {
                     // SAFETY: for Ready(None) to be returned, we know that every future in the queue
